@@ -84,6 +84,23 @@ Theorem C04_sorted_columns_sound_bytes : forall (gs : list (rg bytes)),
 Proof. exact sorted_sound_bytes. Qed.
 Print Assumptions C04_sorted_columns_sound_bytes.
 
+(* categorical chunks under the REPAIRED rule (fix: commit in /repo): whatever the category order, whichever
+   categories are unused, however the codes are cut into pages - the statistics describe the decoded chunk
+   (labels_of = dictionary page looked up through the codes of the data pages) *)
+Theorem C04_categorical_exact : forall o sel optional (cats : list N) (pages : list (list (option nat))),
+  (optional = false -> forall c, In c (labels_of N cats (concat pages)) -> c <> None) ->
+  exact N (leb_of o) (ordered_of o) (labels_of N cats (concat pages))
+        (cat_stats_of N (leb_of o) (ordered_of o) sel optional cats pages).
+Proof. exact cat_exact_fixed. Qed.
+Print Assumptions C04_categorical_exact.
+
+Theorem C04_categorical_exact_bytes : forall sel optional (cats : list bytes) (pages : list (list (option nat))),
+  (optional = false -> forall c, In c (labels_of bytes cats (concat pages)) -> c <> None) ->
+  exact bytes lex_leb (fun _ => true) (labels_of bytes cats (concat pages))
+        (cat_stats_of bytes lex_leb (fun _ => true) sel optional cats pages).
+Proof. exact cat_exact_bytes. Qed.
+Print Assumptions C04_categorical_exact_bytes.
+
 (* the pinned tree took categorical min/max in CATEGORY order: min > max (repaired by a fix: commit) *)
 Theorem C04_categorical_refuted :
   exists (cats : list N) (codes : list (option nat)) (mn mx : N),
@@ -108,5 +125,9 @@ Example C04_nonvacuous :
   /\ stats_of N (leb_of OUnsigned) (ordered_of OUnsigned) true false [[Some 0xffffffff; Some 5]]%N
     = mk_stats (Some 5) (Some 0xffffffff) 0%N
   /\ check_stats N (leb_of (OSigned 32)) (ordered_of (OSigned 32)) [Some 0xffffffff; Some 5]%N
-       (mk_stats (Some 5) (Some 0xffffffff) 0)%N = false.
+       (mk_stats (Some 5) (Some 0xffffffff) 0)%N = false
+  (* categories [30; 10; 20; 5] in that order, label 5 unused, one null, two pages *)
+  /\ cat_stats_of N (leb_of OUnsigned) (ordered_of OUnsigned) true true [30; 10; 20; 5]%N
+                  [[Some 1; None]; [Some 0; Some 2]]%nat = mk_stats (Some 10) (Some 30) 1%N
+  /\ cat_minmax_old N [30; 10; 20; 5]%N [Some 1; None; Some 0; Some 2]%nat = Some (30, 20)%N.
 Proof. vm_compute. repeat split; reflexivity. Qed.
